@@ -277,6 +277,23 @@ func (e *c17Env) run(b *verifx.C17Beh, n int64, big bool) ([]*verifx.C17Plan, []
 				}
 				return plans, res, false
 			}
+		case "ab":
+			// permission for the abort; the handler panics, its client sees the cut response
+			select {
+			case sess[i].step <- struct{}{}:
+			case <-abort:
+				return plans, res, false
+			case <-time.After(c17Guard):
+				e.oracle("handler %d does not take the permission to abort", i+1)
+				return plans, res, false
+			}
+			select {
+			case <-done[i]:
+				finished[i] = true
+			case <-time.After(c17Guard):
+				e.oracle("client of the aborted handler %d saw no end of the response within the guard time", i+1)
+				return plans, res, false
+			}
 		case "finish":
 			if !finish(i) {
 				return plans, res, false
@@ -302,8 +319,12 @@ func TestVerifC17(t *testing.T) {
 		defer func() {
 			if p := recover(); p != nil {
 				id := r.Header.Get("X-C17-Session")
+				v, ok := env.sessions.Load(id)
+				if ok && p == http.ErrAbortHandler && v.(*c17Session).plan.H.Aborted {
+					panic(p) // the scripted abort of the inner handler, passed on by the handler under test
+				}
 				env.panics.Store(id, fmt.Sprintf("%v\n%s", p, debug.Stack()))
-				if v, ok := env.sessions.Load(id); ok {
+				if ok {
 					v.(*c17Session).kill()
 				}
 				panic(http.ErrAbortHandler)
@@ -324,7 +345,7 @@ func TestVerifC17(t *testing.T) {
 	big := verifx.EnvInt("VERIF_C17_BIG", 1) == 1
 	workers := verifx.EnvInt("VERIF_C17_WORKERS", 32)
 
-	var behs, handlers, gz, plain, two, nontrivial, bytesIn, bigChunks, refs int64
+	var behs, handlers, gz, plain, two, nontrivial, bytesIn, bigChunks, refs, aborted int64
 	var sampleMu sync.Mutex
 	var samples []string
 	type job struct {
@@ -381,6 +402,10 @@ func TestVerifC17(t *testing.T) {
 						bb.N, bb.Via = n, "gzip"
 						verifx.Fail(bb, p.Features("gzip", "handler-panic"), "handler %d of %d: the gzip handler panicked: %s\n  %s", i+1, len(plans), r.panicked, p.Describe())
 						continue
+					}
+					if p.H.Aborted {
+						atomic.AddInt64(&aborted, 1)
+						continue // nothing is required of a response its handler gave up on
 					}
 					if r.err != nil {
 						env.oracle("handler %d: request failed before a response arrived: %v (%s)", i+1, r.err, p.Describe())
@@ -451,6 +476,6 @@ func TestVerifC17(t *testing.T) {
 		t.Fatal(err)
 	}
 	verifx.Summary(map[string]any{"behaviours": n, "ran": behs, "handlers": handlers, "gzip_mode": gz, "plain_mode": plain,
-		"two_handler_behaviours": two, "distinct_nontrivial": nontrivial, "inner_bytes": bytesIn, "chunks_64k_plus": bigChunks, "reference_runs": refs,
+		"two_handler_behaviours": two, "distinct_nontrivial": nontrivial, "inner_bytes": bytesIn, "chunks_64k_plus": bigChunks, "reference_runs": refs, "aborted_responses": aborted,
 		"plumbing": atomic.LoadInt64(&env.plumbing), "samples": samples})
 }
